@@ -951,6 +951,13 @@ SweepEvOK(e, idx) ==
        /\ Chk("S2", idx, \A k \in 1..Len(e.beams) : S2Order(e.beams[k]))
        /\ Chk("S3", idx, \A k \in 1..Len(e.beams) : S3Winding(e.fr, e.beams[k]))
        /\ Chk("S4", idx, \A k \in 1..Len(e.beams) : S4Contribution(e.ct, e.fr, e.beams[k]))
+       /\ Chk("S6", idx, S6All(e.beams, 8))
+       /\ Chk("R1", idx, R1Rings(e.rings))
+       /\ Chk("R2", idx, R2Owners(e.rings, e.tree))
+       /\ Chk("R3", idx, \A k \in 1..Len(e.probes) : RegionOKAt(e.ct, e.fr, e.subj, e.clip, RawRings(e.rings), e.probes[k]))
+       /\ Chk("R4", idx, \A k \in 1..Len(e.probes) :
+                           (FarClosed(e.probes[k], e.subj, Band4) /\ FarClosed(e.probes[k], e.clip, Band4)) =>
+                              ((WnPaths(e.probes[k], RawRings(e.rings)) # 0) <=> (WnPaths(e.probes[k], e.sol) # 0)))
 
 (***************************************************************************)
 (* The small deterministic helpers of the API (not among the listed        *)
